@@ -712,6 +712,7 @@ def execute_run(run: dict) -> dict:
                         if not rec['a1']:
                             rec['a1_detail'] = {'before': repr(before)[:400], 'after': repr(after)[:400]}
                         if res is not None:
+                            rec['strict'] = V.strict(res)
                             shared = V.list_ids(res) & arg_lists
                             rec['a2'] = not shared
                             if cfg.get('scribble') and rec['a2']:
@@ -885,7 +886,7 @@ def _ref_eval(key: dict, args_spec: list, ctxname) -> list:
         res = fn(*args, ctx=ctx)
     except Exception as e:
         return ['exc', type(e).__name__]
-    return ['ok', V.denote(res)]
+    return ['ok', V.denote(res), V.strict(res)]
 
 
 def reference(key: dict, args_spec: list, ctxname) -> list:
@@ -974,9 +975,18 @@ def judge(run: dict, out: dict) -> list[dict]:
         if ref[0] == 'derive-exc':
             # the derivation itself fails in a fresh process; it must have failed here too
             continue
+        strict_ref = ref[2] if len(ref) > 2 else None
+        ref = ref[:2]
         if oc != ref:
             cls = 'H2-source-changed-by-derivation' if op.get('h2') else 'A3-result-depends-on-history-or-schedule'
             vios.append(_vio(cls, base_sig, {'op': op, 'observed': oc, 'reference': ref, 't': rec['t'], 'j': rec['j']}, run))
+        elif strict_ref is not None and rec.get('strict') is not None and rec['strict'] != strict_ref \
+                and 'engine' not in run['cfg'].get('fault_kinds', ()):
+            # the same value, but not the same result: representation, flags or context of some number in
+            # it differ from the fresh-process result (not judged when an extra engine may have answered:
+            # another engine may legitimately represent the same value differently)
+            vios.append(_vio('A3m-result-metadata-depends-on-history-or-schedule', base_sig,
+                             {'op': op, 'observed': oc, 't': rec['t'], 'j': rec['j'], 'strict': [rec['strict'], strict_ref]}, run))
         gk = json.dumps([op['key'], op['args'], op['ctx']], sort_keys=True)
         groups.setdefault(gk, []).append((oc, rec['t'], rec['j']))
     for gk, lst in groups.items():
@@ -1292,7 +1302,7 @@ def _main(tier: str, total: float, parts: list) -> int:
     core.write_evidence(PROP, tier, 'exploration', coverage, wall_s=wall, violations=len(violations),
                         assumptions=['the reference is the same tree evaluated once in a fresh process: a change that moves both sides alike is invisible (that is C01-C04 territory)',
                                      'only GIL-style interleavings at line/opcode boundaries of fpy2 and generated code are explored; C extensions are atomic',
-                                     'only denoted values are compared (not exp/c representation, flags or ctx of results)'])
+                                     'representation, flags and context of results are compared only in runs where no extra engine was registered; denoted values in every run'])
     print(f'{PROP} {tier}: runs={runs} steps={steps} handoffs={coverage["baton_handoffs"]} '
           f'distinct={coverage["distinct_nontrivial"]} violations={len(violations)} wall={wall:.1f}s')
     return code
